@@ -330,6 +330,64 @@ func seedFamilies(seedName string, sd []byte, isCbor bool, maxPos int, level int
 		}
 	}
 	family1("tag", edits)
+	// (5b) integer re-encoding: every integer item (and every tag-2/3 bignum) replaced by its
+	// other integer encodings and by the zero / extreme values of each encoding: bignum zero
+	// (c240, c24100), the same value as a bignum, negative bignums (c340, c34100, same
+	// argument), the 8-byte uint / nint forms, uint 0 and the largest uint / nint.
+	var ints []*space.Node
+	for _, n := range nodes {
+		if n.Major <= 1 || (n.Major == 6 && (n.Arg == 2 || n.Arg == 3)) {
+			ints = append(ints, n)
+		}
+	}
+	if headsOnly && maxPos > 0 && len(ints) > maxPos {
+		stride := (len(ints) + maxPos - 1) / maxPos
+		var i2 []*space.Node
+		for i := 0; i < len(ints); i += stride {
+			i2 = append(i2, ints[i])
+		}
+		ints = i2
+	}
+	var intRepl [][]byte
+	var intAt []*space.Node
+	for _, n := range ints {
+		var mag []byte // big-endian magnitude bytes of the argument, no leading zeros
+		arg := n.Arg
+		if n.Major == 6 {
+			arg = 1
+		}
+		for v := arg; v > 0; v >>= 8 {
+			mag = append([]byte{byte(v)}, mag...)
+		}
+		big := func(tag byte, m []byte) []byte { return append(appendHead([]byte{tag}, 2, uint64(len(m)), -1), m...) }
+		vars := [][]byte{
+			{0xc2, 0x40}, {0xc2, 0x41, 0x00}, big(0xc2, mag), big(0xc2, append([]byte{0}, mag...)),
+			{0xc3, 0x40}, {0xc3, 0x41, 0x00}, big(0xc3, mag),
+			appendHead(nil, 0, arg, 8), appendHead(nil, 1, arg, 8),
+			{0x00}, {0x20}, appendHead(nil, 0, 1<<64-1, 8), appendHead(nil, 1, 1<<64-1, 8),
+		}
+		orig := sd[n.Start:n.End]
+		for _, v := range vars {
+			if string(v) == string(orig) {
+				continue
+			}
+			if len(v) == len(orig) && level == 0 {
+				// a same-length single-byte difference may already be a substitution input
+				d := 0
+				for i := range v {
+					if v[i] != orig[i] {
+						d++
+					}
+				}
+				if d == 1 && L <= 256 {
+					continue
+				}
+			}
+			intRepl = append(intRepl, v)
+			intAt = append(intAt, n)
+		}
+	}
+	mk("intenc", len(intRepl), func(i int) []byte { return splice(sd, intAt[i].Start, intAt[i].End, intRepl[i]) })
 	// (6) embedded CBOR (byte strings whose content is itself one array/map/tag item): the
 	// tree families of the inner item, re-wrapped with a corrected outer length so the inner
 	// decoder is reached.
